@@ -331,6 +331,249 @@ theorem model_split_solves {K : Type*} [CommRing K] (req : EqReq) (eqs : List Eq
   exact ⟨er, ec, h1, h2, h3, h4, fun A b Ainv xp hR hS =>
     schur_expand_solves_full A b er ec Ainv xp hR hS⟩
 
+/-! ### the model's arithmetic solves the full system (no run-time hypothesis)
+
+`toM a b L` / `toV a v` read a list of rows / a list as an `a × b` Mathlib matrix / a vector over ℚ.
+The inverses are computed by `C37.inverse` (exact Gauss–Jordan), which is proved in C37's lemmas to
+return a left inverse whenever it returns anything; `inverse_toM` turns that into a two-sided
+Mathlib inverse. -/
+
+theorem split_gives_equiv' (p s : List Nat) (n a b : Nat) (hp : p.length = a) (hs : s.length = b)
+    (h : (p ++ s).Perm (List.range n)) :
+    ∃ e : Fin a ⊕ Fin b ≃ Fin n,
+      (∀ i : Fin a, (e (Sum.inl i) : Nat) = p.getD i 0) ∧
+      (∀ j : Fin b, (e (Sum.inr j) : Nat) = s.getD j 0) := by
+  subst hp; subst hs
+  obtain ⟨e, h1, h2⟩ := split_gives_equiv p s n h
+  exact ⟨e, fun i => by simp [h1 i], fun j => by simp [h2 j]⟩
+
+theorem toV_expand (n a b : Nat) (pcols scols : List Nat) (xp xs : Vec)
+    (hpa : pcols.length = a) (hsb : scols.length = b)
+    (h : (pcols ++ scols).Perm (List.range n)) (hp : xp.length = a) (hs : xs.length = b)
+    (ec : Fin a ⊕ Fin b ≃ Fin n)
+    (h1 : ∀ i : Fin a, (ec (Sum.inl i) : Nat) = pcols.getD i 0)
+    (h2 : ∀ j : Fin b, (ec (Sum.inr j) : Nat) = scols.getD j 0) :
+    toV n (expand n pcols scols xp xs) = Sum.elim (toV a xp) (toV b xs) ∘ ec.symm := by
+  subst hpa; subst hsb
+  obtain ⟨_, hP, hS⟩ := expand_places n pcols scols xp xs h hp hs
+  funext c
+  obtain ⟨y, rfl⟩ := ec.surjective c
+  simp only [Function.comp_apply, Equiv.symm_apply_apply, toV]
+  rcases y with i | j
+  · have hi : pcols[(i : Nat)]? = some (ec (Sum.inl i) : Nat) := by
+      rw [h1 i]; simp
+    have := hP i _ hi
+    simp [List.getD_eq_getElem?_getD, this, toV]
+  · have hj : scols[(j : Nat)]? = some (ec (Sum.inr j) : Nat) := by
+      rw [h2 j]; simp
+    have := hS j _ hj
+    simp [List.getD_eq_getElem?_getD, this, toV]
+
+/-- core of the end-to-end statement, with the block sizes as variables -/
+theorem schurSolve_core (J : Mat) (r : Vec) (nr nc np ns : Nat)
+    (prows srows pcols scols : List Nat)
+    (hpr : prows.length = np) (hpc : pcols.length = np)
+    (hsr : srows.length = ns) (hsc : scols.length = ns)
+    (hrow : (prows ++ srows).Perm (List.range nr)) (hcol : (pcols ++ scols).Perm (List.range nc))
+    (inv Sinv : Mat)
+    (hinv : C37.inverse (blocksOf J r prows srows pcols scols).Ass = some inv)
+    (hSinv : C37.inverse (reduced (blocksOf J r prows srows pcols scols) inv np ns).1 = some Sinv) :
+    toM nr nc J *ᵥ toV nc (expandStored
+        ⟨inv, (blocksOf J r prows srows pcols scols).bs, (blocksOf J r prows srows pcols scols).Asp,
+          pcols, scols, nc⟩
+        (mulVec Sinv (reduced (blocksOf J r prows srows pcols scols) inv np ns).2)) = toV nr r := by
+  obtain ⟨er, her1, her2⟩ := split_gives_equiv' prows srows nr np ns hpr hsr hrow
+  obtain ⟨ec, hec1, hec2⟩ := split_gives_equiv' pcols scols nc np ns hpc hsc hcol
+  -- the blocks
+  have eApp : (blocksOf J r prows srows pcols scols).App = pickCols (pickRows J prows) pcols := rfl
+  have eAps : (blocksOf J r prows srows pcols scols).Aps = pickCols (pickRows J prows) scols := rfl
+  have eAsp : (blocksOf J r prows srows pcols scols).Asp = pickCols (pickRows J srows) pcols := rfl
+  have eAss : (blocksOf J r prows srows pcols scols).Ass = pickCols (pickRows J srows) scols := rfl
+  have ebp : (blocksOf J r prows srows pcols scols).bp = pick r prows := rfl
+  have ebs : (blocksOf J r prows srows pcols scols).bs = pick r srows := rfl
+  generalize (blocksOf J r prows srows pcols scols) = b at *
+  have shApp : Shape np np b.App := eApp ▸ shape_pick' J prows pcols np np hpr hpc
+  have shAps : Shape np ns b.Aps := eAps ▸ shape_pick' J prows scols np ns hpr hsc
+  have shAsp : Shape ns np b.Asp := eAsp ▸ shape_pick' J srows pcols ns np hsr hpc
+  have shAss : Shape ns ns b.Ass := eAss ▸ shape_pick' J srows scols ns ns hsr hsc
+  have lbp : b.bp.length = np := by rw [ebp, length_pick, hpr]
+  have lbs : b.bs.length = ns := by rw [ebs, length_pick, hsr]
+  -- the blocks as sub-matrices of the full system
+  have hPP : (toM nr nc J).submatrix (er ∘ Sum.inl) (ec ∘ Sum.inl) = toM np np b.App := by
+    ext i j; rw [eApp, toM_pick J prows pcols np np hpr hpc]; simp [toM, her1, hec1]
+  have hPS : (toM nr nc J).submatrix (er ∘ Sum.inl) (ec ∘ Sum.inr) = toM np ns b.Aps := by
+    ext i j; rw [eAps, toM_pick J prows scols np ns hpr hsc]; simp [toM, her1, hec2]
+  have hSP : (toM nr nc J).submatrix (er ∘ Sum.inr) (ec ∘ Sum.inl) = toM ns np b.Asp := by
+    ext i j; rw [eAsp, toM_pick J srows pcols ns np hsr hpc]; simp [toM, her2, hec1]
+  have hSS : (toM nr nc J).submatrix (er ∘ Sum.inr) (ec ∘ Sum.inr) = toM ns ns b.Ass := by
+    ext i j; rw [eAss, toM_pick J srows scols ns ns hsr hsc]; simp [toM, her2, hec2]
+  have hbP : toV nr r ∘ er ∘ Sum.inl = toV np b.bp := by
+    funext i; rw [ebp, toV_pick r prows np hpr]; simp [toV, her1]
+  have hbS : toV nr r ∘ er ∘ Sum.inr = toV ns b.bs := by
+    funext i; rw [ebs, toV_pick r srows ns hsr]; simp [toV, her2]
+  -- the inverse of the secondary block
+  obtain ⟨hR, _⟩ := inverse_toM b.Ass inv ns ns shAss.1 shAss.1 hinv
+  obtain ⟨linv, rinv⟩ := C37.inverse_length b.Ass inv hinv
+  rw [shAss.1] at linv rinv
+  have shinv : Shape ns ns inv := ⟨linv, rinv⟩
+  -- the reduced system
+  have shAI : Shape np ns (matMul b.Aps inv ns) :=
+    ⟨by rw [(shape_matMul b.Aps inv ns).1, shAps.1], (shape_matMul b.Aps inv ns).2⟩
+  have shAIA : Shape np np (matMul (matMul b.Aps inv ns) b.Asp np) :=
+    ⟨by rw [(shape_matMul _ b.Asp np).1, shAI.1], (shape_matMul _ b.Asp np).2⟩
+  obtain ⟨mS, mrhs⟩ := reduced_toM b inv np np ns shApp shAps lbp
+  have lS : (reduced b inv np ns).1.length = np := by
+    show (msub b.App (matMul (matMul b.Aps inv ns) b.Asp np)).length = np
+    rw [length_msub _ _ (by rw [shApp.1, shAIA.1]), shApp.1]
+  -- its solution
+  obtain ⟨hSR, _⟩ := inverse_toM _ Sinv np np lS lS hSinv
+  obtain ⟨lSinv, rSinv⟩ := C37.inverse_length _ Sinv hSinv
+  rw [lS] at lSinv rSinv
+  have mxp : toV np (mulVec Sinv (reduced b inv np ns).2)
+      = toM np np Sinv *ᵥ toV np (reduced b inv np ns).2 :=
+    toV_mulVec np np Sinv _ (fun row h => le_of_eq (rSinv row h))
+  have hSx : toM np np (reduced b inv np ns).1 *ᵥ toV np (mulVec Sinv (reduced b inv np ns).2)
+      = toV np (reduced b inv np ns).2 := by
+    rw [mxp, mulVec_mulVec, hSR, one_mulVec]
+  generalize hxp : mulVec Sinv (reduced b inv np ns).2 = xp at *
+  have lxp : xp.length = np := by rw [← hxp, length_mulVec, lSinv]
+  -- the expansion
+  have mxs : toV ns (mulVec inv (vsub b.bs (mulVec b.Asp xp)))
+      = toM ns ns inv *ᵥ (toV ns b.bs - toM ns np b.Asp *ᵥ toV np xp) := by
+    rw [toV_mulVec ns ns inv _ (shape_le shinv),
+      toV_vsub ns _ _ (by rw [lbs, length_mulVec, shAsp.1]),
+      toV_mulVec ns np b.Asp xp (shape_le shAsp)]
+  have lxs : (mulVec inv (vsub b.bs (mulVec b.Asp xp))).length = ns := by
+    rw [length_mulVec, linv]
+  have hX := toV_expand nc np ns pcols scols xp _ hpc hsc hcol lxp lxs ec hec1 hec2
+  show toM nr nc J *ᵥ toV nc (expand nc pcols scols xp (mulVec inv (vsub b.bs (mulVec b.Asp xp)))) = _
+  rw [hX, mxs]
+  have key := schur_expand_solves_full (toM nr nc J) (toV nr r) er ec (toM ns ns inv) (toV np xp)
+    (by rw [hSS]; exact hR)
+    (by rw [hPP, hPS, hSP, hbP, hbS, ← mS, ← mrhs]; exact hSx)
+  rw [hbS, hSP] at key
+  exact key
+
+theorem length_reduced (J : Mat) (r : Vec) (prows srows pcols scols : List Nat) (inv : Mat) (np ns : Nat) :
+    (reduced (blocksOf J r prows srows pcols scols) inv np ns).1.length = prows.length := by
+  simp [reduced, msub, matMul, blocksOf, pickCols, pickRows]
+
+/-- `schurSolve_solves_full`: whenever the model answers — i.e. both exact eliminations succeed —
+    the expanded vector solves the full system `J X = r`.  No invertibility hypothesis, no
+    run-time certificate: only that the row lists and the column lists are partitions (which
+    `row_split_is_partition` / `col_split_is_partition` prove for the lists of the model). -/
+theorem schurSolve_solves_full (J : Mat) (r : Vec) (nr nc : Nat)
+    (prows srows pcols scols : List Nat) (X : Vec)
+    (hrow : (prows ++ srows).Perm (List.range nr)) (hcol : (pcols ++ scols).Perm (List.range nc))
+    (h : schurSolve J r nc prows srows pcols scols = some X) :
+    toM nr nc J *ᵥ toV nc X = toV nr r := by
+  unfold schurSolve at h
+  split at h
+  · cases h
+  rename_i sp hsp
+  split at h
+  · cases h
+  rename_i xp hxp
+  simp only [Option.some.injEq] at h
+  subst h
+  unfold assembleSplit at hsp
+  split at hsp
+  · cases hsp
+  rename_i hsq
+  simp only at hsp
+  split at hsp
+  · cases hsp
+  rename_i inv hinv
+  simp only [Option.some.injEq] at hsp
+  subst hsp
+  unfold solveReduced at hxp
+  simp only at hxp
+  split at hxp
+  · cases hxp
+  rename_i hsq2
+  split at hxp
+  · cases hxp
+  rename_i Sinv hSinv
+  simp only [Option.some.injEq] at hxp
+  subst hxp
+  have hs : srows.length = scols.length := by simpa using hsq
+  have hp : prows.length = pcols.length := by
+    have : (reduced (blocksOf J r prows srows pcols scols) inv pcols.length scols.length).1.length
+        = pcols.length := by simpa using hsq2
+    rw [length_reduced] at this; exact this
+  exact schurSolve_core J r nr nc pcols.length scols.length prows srows pcols scols hp rfl hs rfl
+    hrow hcol inv Sinv hinv hSinv
+
+/-- … and if the full Jacobian is square and invertible, the model's answer IS the full solve
+    `J⁻¹ r`: the increments coincide. -/
+theorem schurSolve_eq_full_solve (J : Mat) (r : Vec) (n : Nat)
+    (prows srows pcols scols : List Nat) (X : Vec)
+    (hrow : (prows ++ srows).Perm (List.range n)) (hcol : (pcols ++ scols).Perm (List.range n))
+    (hJ : IsUnit (toM n n J).det)
+    (h : schurSolve J r n prows srows pcols scols = some X) :
+    toV n X = (toM n n J)⁻¹ *ᵥ toV n r := by
+  rw [← schurSolve_solves_full J r n n prows srows pcols scols X hrow hcol h, mulVec_mulVec,
+    nonsing_inv_mul _ hJ, one_mulVec]
+
+/-- The reduced system the model answers IS the Schur complement system: whenever `assembleSplit`
+    answers, the secondary block is square and invertible (as a Mathlib matrix), the stored
+    inverse is its inverse, and `S = A_pp − A_ps A_ss⁻¹ A_sp`, `rhs_S = b_p − A_ps A_ss⁻¹ b_s`. -/
+theorem assembleSplit_reduced (J : Mat) (r : Vec) (n : Nat) (prows srows pcols scols : List Nat)
+    (sp : SplitResult) (h : assembleSplit J r n prows srows pcols scols = some sp) :
+    srows.length = scols.length ∧
+    IsUnit (toM scols.length scols.length (blocksOf J r prows srows pcols scols).Ass).det ∧
+    toM scols.length scols.length sp.stored.inv
+      = (toM scols.length scols.length (blocksOf J r prows srows pcols scols).Ass)⁻¹ ∧
+    toM prows.length pcols.length sp.S
+      = toM prows.length pcols.length (blocksOf J r prows srows pcols scols).App
+        - toM prows.length scols.length (blocksOf J r prows srows pcols scols).Aps
+          * (toM scols.length scols.length (blocksOf J r prows srows pcols scols).Ass)⁻¹
+          * toM scols.length pcols.length (blocksOf J r prows srows pcols scols).Asp ∧
+    toV prows.length sp.rhs
+      = toV prows.length (blocksOf J r prows srows pcols scols).bp
+        - (toM prows.length scols.length (blocksOf J r prows srows pcols scols).Aps
+            * (toM scols.length scols.length (blocksOf J r prows srows pcols scols).Ass)⁻¹)
+          *ᵥ toV scols.length (blocksOf J r prows srows pcols scols).bs := by
+  unfold assembleSplit at h
+  split at h
+  · cases h
+  rename_i hsq
+  simp only at h
+  split at h
+  · cases h
+  rename_i inv hinv
+  simp only [Option.some.injEq] at h
+  subst h
+  have hs : srows.length = scols.length := by simpa using hsq
+  have shAss : Shape scols.length scols.length (blocksOf J r prows srows pcols scols).Ass :=
+    shape_pick' J srows scols _ _ hs rfl
+  obtain ⟨hR, hL⟩ := inverse_toM _ inv scols.length scols.length shAss.1 shAss.1 hinv
+  have hinvEq := (Matrix.inv_eq_right_inv hR).symm
+  obtain ⟨mS, mrhs⟩ := reduced_toM (blocksOf J r prows srows pcols scols) inv prows.length
+    pcols.length scols.length (shape_pick' J prows pcols _ _ rfl rfl)
+    (shape_pick' J prows scols _ _ rfl rfl) (length_pick r prows)
+  refine ⟨hs, ?_, hinvEq, ?_, ?_⟩
+  · exact (Matrix.isUnit_iff_isUnit_det _).mp ⟨⟨_, _, hR, hL⟩, rfl⟩
+  · rw [← hinvEq]; exact mS
+  · rw [← hinvEq]; exact mrhs
+
+/-- End to end on the model's own bookkeeping: for every layout, every equation request and every
+    duplicate-free variable request, whenever the model answers a solution for a full system `J, r`,
+    that solution solves `J X = r`. -/
+theorem model_schurSolve_solves_full (req : EqReq) (eqs : List EqLayout) (vars : List Var)
+    (items : List VarItem) (J : Mat) (r X : Vec)
+    (hnd : ((parseVars (varBlocks 0 0 vars) items).map (·.idx)).Nodup)
+    (h : schurSolve J r (totalDofs vars) (primRows req 0 0 eqs) (secRows req eqs)
+        (primCols (parseVars (varBlocks 0 0 vars) items))
+        (secCols (varBlocks 0 0 vars) (parseVars (varBlocks 0 0 vars) items)) = some X) :
+    toM (totalRows eqs) (totalDofs vars) J *ᵥ toV (totalDofs vars) X = toV (totalRows eqs) r :=
+  schurSolve_solves_full J r _ _ _ _ _ _ X (row_split_is_partition req eqs)
+    (col_split_is_partition vars items hnd) h
+
+/-- non-vacuity: the model answers on the 2×2 system of part (a), with the answer computed there -/
+example : schurSolve [[3, 1], [2, 2]] [5, 4] 2 [0] [1] [0] [1] = some [3 / 2, 1 / 2] := by
+  decide +kernel
+
 /-! ### non-vacuity of part (b)
 
 Three equations: `e0` on grids 0,1 (2 + 3 rows), `e1` on grid 0 (2 rows), `e2` on grids 1,2 (3 + 1
